@@ -29,19 +29,19 @@ LEVEL_NOTE = "Trusted: SHA-256 over raw array bytes; subprocess isolation.  Sche
 
 def budget(tier):
     if tier == "quick":
-        return dict(max_examples=16, workers=4, time_s=170, min_cases=6)
-    return dict(max_examples=160, workers=5, time_s=1200, min_cases=12)
+        return dict(max_examples=28, workers=7, time_s=170, min_cases=10)
+    return dict(max_examples=400, workers=5, time_s=1200, min_cases=24)
 
 
 @st.composite
 def _case(draw, tier):
     scr = draw(st.integers(0, 2)) > 0
-    dev = draw(gen.device(terminals=draw(st.sampled_from([(0, 3), (3, 4), (4, 4)])), holes=(0, 1), probes=(0, 2), film_kinds=("box", "ellipse", "union"), size=(3.5, 5.0),
+    dev = draw(gen.device(terminals=draw(st.sampled_from([(0, 3), (3, 4), (4, 4), (4, 4)])), holes=(0, 1), probes=(0, 2), film_kinds=("box", "ellipse", "union"), size=(3.5, 5.0),
                           screening=scr, lshape=True).filter(gen.valid_device))
     fu = draw(st.sampled_from(gen.FIELD_UNITS))
     cu = draw(st.sampled_from(gen.CURRENT_UNITS))
     fld = draw(gen.field(dev, fu, kinds=("constant", "ramp", "float"), bmax=0.25 if scr else 0.5))
-    cur = draw(gen.currents(dev, cu, kinds=("callable", "callable", "dict"), generic=True))
+    cur = draw(gen.currents(dev, cu, kinds=("callable", "callable", "dict"), generic="always"))
     eps = draw(st.sampled_from([None, None, "disc", "timedep"]))
     if isinstance(eps, str):
         xi = dev["layer"]["xi"]
